@@ -457,7 +457,14 @@ def _fl(v):
 def _run_comb(case):
     import random as rnd
     from mystic import constraints as C
-    members = [make_member(m) for m in case["members"]]
+    ncalls = [0]
+    def counted(f):
+        def g(x):
+            ncalls[0] += 1
+            return f(x)
+        g.__doc__ = None
+        return g
+    members = [counted(make_member(m)) for m in case["members"]]
     fired = []
     def onexit(x):
         fired.append(["exit", _fl(x)]); return x
@@ -484,6 +491,7 @@ def _run_comb(case):
     finally:
         rnd.randint, rnd.random = saved
     out["draws"] = d.log
+    out["calls"] = ncalls[0]
     out["input_unchanged"] = (_fl(x) == x_before)
     return out
 
@@ -593,6 +601,11 @@ def _oracle_comb(case, obs):
     members = [make_member(dict(m, ret="list")) for m in specs]
     fired = obs["fired"]
     can_reraise = any(op[0].startswith("raise") and op[1] == 3 for m in specs for op in m["ops"])
+    # ---- bounded iterations: at most maxiter*n member calls (and_/or_: never fewer than the first pass allows), maxiter for not_
+    mi = DEFAULT_MAXITER if case["maxiter"] is None else case["maxiter"]
+    bound = mi if kind == "not" else max(len(specs), mi * len(specs))
+    if obs.get("calls", 0) > bound:
+        out.append(_fail("bounded_iterations", site, "more-member-calls-than-the-cap", [obs.get("calls"), bound]))
     # ---- exhaustive outcome: exactly one of onexit/onfail, unless a member's exception is re-raised
     if "raised" in obs:
         if not (can_reraise and obs["raised"] == "TypeError" and not fired):
